@@ -49,16 +49,20 @@ inductive ConformsFields (reg : Reg) : List InField → List (String × PV) → 
 end
 
 /-- well-formed registry: field types are well-formed type expressions, declared defaults conform to
-    their types (a schema built from SDL coerces them with `value_from_ast`), enum internal values are not `None`. -/
+    their types (a schema built from SDL coerces them with `value_from_ast`), enum internal values are not `None`,
+    the python names of one input object's fields are pairwise distinct (otherwise two fields write the same dict key;
+    the model follows that collision, `dictOfAssignments`, but then no dict can hold both fields). -/
 structure RegOK (reg : Reg) : Prop where
   fieldWf : ∀ n fs, reg.get? n = some (.input fs) → ∀ f, f ∈ fs → f.type.wf = true
   defaultsConform : ∀ n fs, reg.get? n = some (.input fs) → ∀ f, f ∈ fs → ∀ d, f.default = some d → Conforms reg f.type d
   enumNotNone : ∀ n vs, reg.get? n = some (.enum vs) → ∀ p, p ∈ vs → p.2.isNone = false
+  pyNamesDistinct : ∀ n fs, reg.get? n = some (.input fs) → (fs.map (fun f => f.pyName)).Nodup
 
 /-- argument definitions of a field / directive: same three conditions -/
 structure ArgsOK (reg : Reg) (defs : List InField) : Prop where
   wf : ∀ d, d ∈ defs → d.type.wf = true
   defaultsConform : ∀ d, d ∈ defs → ∀ v, d.default = some v → Conforms reg d.type v
+  pyNamesDistinct : (defs.map (fun d => d.pyName)).Nodup
 
 def Lit.isLeaf : Lit → Bool
   | .null => true | .int _ => true | .float _ _ => true | .str _ => true | .bool _ => true | .enum _ => true
